@@ -1,6 +1,6 @@
 SPECIFICATION Spec
 CONSTANTS
-  MaxLen = 5
+  MaxLen = 6
   Macs = {"none", "obj", "fn", "tmpl"}
   ViewTail = 1
 INVARIANT TypeOK
